@@ -61,6 +61,30 @@ pub fn run(s: &dyn Subject, ctx: &Ctx) -> Option<DeclReport> {
                 continue;
             }
         }
+        // values obtained through the other entry points are obtainable values too: each must be a fixed point of the constructor
+        let mut others: Vec<(&str, Obs)> = Vec::new();
+        if let Some(o) = s.try_from_inner(raw) {
+            others.push(("TryFrom", o));
+        }
+        if let Some(o) = s.from_inner(raw) {
+            others.push(("From", o));
+        }
+        if let Value::Str(st) = raw {
+            for (how, o) in [("TryFrom<&str>", s.try_from_str(st)), ("From<&str>", s.from_str_ref(st)), ("FromStr", s.parse_string(st))] {
+                if let Some(o) = o {
+                    others.push((how, o));
+                }
+            }
+        }
+        for (how, o) in others {
+            if let Obs::Ok(w) = o {
+                rep.executions += 1;
+                match s.ctor(&w) {
+                    Obs::Ok(z) if z == w => {}
+                    other => rep.violate(&format!("value-from-{how}-is-not-a-constructor-fixed-point"), raw.show(), format!("{} -> {}", w.show(), other.show()), w.show(), String::new()),
+                }
+            }
+        }
         let v = match s.ctor(raw) {
             Obs::Ok(v) => v,
             _ => continue,
